@@ -55,6 +55,8 @@ pub struct Stats {
     pub classes: Vec<&'static str>,
     pub skipped_unspecified: u64,
     pub inconclusive: Option<String>,
+    /// API calls made (input bytes, writes, prompt changes), each followed by the oracle
+    pub steps: u64,
 }
 
 impl Stats {
@@ -131,6 +133,7 @@ impl<S: CmdSet> Ctx<'_, S> {
 
     /// Checks that apply after every API call that returned Ok.
     fn after_call(&mut self, what: &str) -> Result<(), Fail> {
+        self.stats.steps += 1;
         if self.f.flush {
             let un = self.s.sink.borrow().unflushed;
             if un != 0 {
@@ -635,6 +638,7 @@ pub fn size_strategy() -> impl Strategy<Value = usize> {
         3 => Just(16usize),
         3 => Just(32usize),
         2 => Just(64usize),
+        8 => 0usize..=64,
     ]
 }
 
@@ -816,6 +820,9 @@ pub fn run_lockstep_shard(
             for _ in 0..stats.skipped_unspecified {
                 ctx.skipped();
             }
+            // an evaluation = one API call followed by the oracle (the session itself was counted by run_prop)
+            ctx.count_evals(stats.steps);
+            ctx.class_n("api calls checked", stats.steps);
             ctx.class(match c.cfg.set.as_str() {
                 "enum" => "sessions:derived enum",
                 "group" => "sessions:derived group",
